@@ -320,8 +320,11 @@ class Builder:
             return (rhs >= lhs) if s == "<=" else (rhs <= lhs)
         return (lhs <= rhs) if s == "<=" else (lhs >= rhs)
 
-    def problem(self, rec):
-        """Problem from {"objective","sense","constraints":[rel...]}."""
+    def problem(self, rec, touch=None):
+        """Problem from {"objective","sense","constraints":[rel...]}.
+        rec["staged"] = {"after": k}: after the first k constraints the half-written model is inspected / solved by `touch(P)`
+        (a user checking the model before adding the rest); rec["batch"] = True: all constraints are handed to ONE subject_to call
+        as a single flat list."""
         P = self.ox.Problem()
         if rec.get("objective") is not None:
             obj = self.S(rec["objective"])
@@ -329,7 +332,20 @@ class Builder:
                 P.minimize(obj)
             else:
                 P.maximize(obj)
-        for c in rec.get("constraints", []):
+        staged = rec.get("staged")
+        cons = rec.get("constraints", [])
+        if rec.get("batch") and cons:
+            flat = []
+            for c in cons:
+                r = self.rel(c)
+                flat.extend(r if isinstance(r, (list, tuple)) else [r])
+            if staged is not None and touch is not None:
+                touch(P)
+            P.subject_to(flat)
+            cons = []
+        for k, c in enumerate(cons):
+            if staged is not None and touch is not None and k == staged.get("after", 0):
+                touch(P)
             P.subject_to(self.rel(c))
         # bounds assigned on the Variable objects after the model was written
         for nm, (lb, ub) in (rec.get("bound_edits") or {}).items():
